@@ -1020,6 +1020,15 @@ class Explorer:
                     out.append((s2, atomv(('classattr', c.qualname, e.attr)), None))
                     continue
             nti = self._nt_index(e.attr)
+            if nti is not None and not isinstance(b, TupleVal):
+                # an object of a repository class that is no NamedTuple has an attribute of that name of its own
+                try:
+                    objs = self.pta.expr_pts(s2.func, e.value)
+                except Exception:
+                    objs = ()
+                if any(o.kind in ('inst', 'ext_inst') and o.cls is not None and o.cls.namedtuple_fields is None
+                       for o in objs):
+                    nti = None
             if nti is not None and (isinstance(b, TupleVal) or
                                     (isinstance(ba, tuple) and ba and ba[0] in ('call', 'sub'))):
                 # a NamedTuple field read: component nti of the tuple
